@@ -6,7 +6,6 @@ Import ListNotations.
 Open Scope string_scope.
 Definition sdc_actions : list string := [
   "http://standards.ieee.org/downloads/11073/11073-20701-2018/SetService/OperationInvokedReport";
-  "Service/EpisodicMetricReport";
   "http://standards.ieee.org/downloads/11073/11073-20701-2018/ContextService/EpisodicContextReport";
   "http://standards.ieee.org/downloads/11073/11073-20701-2018/StateEventService/EpisodicMetricReport";
   "http://standards.ieee.org/downloads/11073/11073-20701-2018/StateEventService/EpisodicOperationalStateReport";
